@@ -1,113 +1,50 @@
-"""code -> spec recorder for C04: run the real rotate_psi / rotate_rho with
-qucumber.utils.cplx.matmul wrapped (observation only, restored in `finally`) and
-reconstruct the per-site intermediates of _kron_mult as events of spec/TraceKron.tla.
+"""code -> spec recorder for C04, through the public interface only.
 
-What is observed per matmul call: the 2x2 matrix (identified with a dictionary letter by
-value), the slice handed over - a view of the array y being rotated, so its base is y, its
-storage offset and stride give the slice start and the stride r - and the moment of the
-call (y as it is after all earlier sites).  Nothing is altered."""
+KronSweep.tla processes the tensor factors from the last site to the first; after the sites s..n-1 the array
+is Dense(Z..Z b_s..b_{n-1}) x.  That intermediate is itself a public result: rotate_psi with the basis whose first
+s letters are replaced by Z.  A psi trace is the sequence of those n public results (one `site` event per
+site, last site first) and TraceKron.tla accepts it iff each one is KronSweep's SweepSite applied to the one before.
+The intermediates of rotate_rho (U rho before the conjugate step, ...) are not public results, so a rho trace is
+`result-only`: the specification's sweep, conjugate step and second sweep run silently and must end in the
+recorded rotate_rho result - for the basis itself and for each of its Z-prefixed suffixes.
+
+(An earlier recorder wrapped qucumber.utils.cplx.matmul and reconstructed the intermediates from the views handed
+to it.  That bound the trace to HOW _kron_mult calls matmul - one 2x2 product per strided slice - and a
+behaviour-preserving vectorisation of _kron_mult was rejected: a false alarm, see DESIGN.md Corrections.)"""
 import json
-import math
 import os
 import shutil
 import tempfile
 
-import torch
-
 import common
 import tlc
-from rot_lib import cplx, un, to_gauss, sqrt2pow, INT_TOL
+from rot_lib import to_gauss, sqrt2pow, INT_TOL
 
 
-class Unobservable(common.MachineryError):
-    pass
-
-
-class KronRecorder:
-    def __init__(self):
-        self.calls = []       # dicts: m, base, r, start, snap (y before this call if first call of a site)
-
-    def __enter__(self):
-        self._orig = cplx.matmul
-        rec = self
-
-        def wrapped(m, temp):
-            base = temp._base
-            if base is None or temp.dim() < 2:
-                raise Unobservable("matmul operand is not a view of the rotated array")
-            unit = base.stride(1)
-            r = temp.stride(1) // unit if temp.shape[1] > 1 else None
-            start = temp.storage_offset() // unit
-            prev = rec.calls[-1] if rec.calls else None
-            new_site = prev is None or prev["base"] is not base or prev["r"] != r
-            rec.calls.append(dict(m=m.detach().clone(), base=base, r=r, start=start,
-                                  snap=base.detach().clone() if new_site else None, new=new_site,
-                                  len=temp.shape[1]))
-            return rec._orig(m, temp)
-
-        cplx.matmul = wrapped
-        return self
-
-    def __exit__(self, *a):
-        cplx.matmul = self._orig
-        return False
-
-
-def letter_of(m, dictionary):
-    for k, v in dictionary.items():
-        if v.shape == m.shape and torch.equal(v.to(m), m):
-            return k
-    return "?"
-
-
-def build_trace(kind, letters, x, call, dictionary, fac, fam="gen"):
-    """call(): runs the library function and returns its result.  Returns (trace dict | None, problem | None)."""
+def build_trace(kind, letters, x, rotate, fac, fam="gen"):
+    """rotate(basis letters) -> the library's public result for that basis on the fixed explicit input.
+    Returns (list of trace dicts | None, problem | None)."""
     n = len(letters)
-    with KronRecorder() as rec:
-        out = call()
-    calls = rec.calls
-    # group calls into sites
-    sites = []
-    for c in calls:
-        if c["new"]:
-            sites.append(dict(first=c, count=0))
-        sites[-1]["count"] += 1
-    # sweeps: a new base tensor starts a new sweep
-    ev = []
-    nf_total = sum(fac[b] for b in letters)
-    sweep_no, f_done = 0, 0
-    prev_base = None
-    for j, st in enumerate(sites):
-        c = st["first"]
-        if c["base"] is not prev_base:
-            sweep_no += 1
-            f_done = 0
-            if sweep_no == 2:
-                y, err = to_gauss(c["snap"], sqrt2pow(nf_total))
-                if err > INT_TOL:
-                    return None, dict(why="non-integer array after the conjugate step", err=err)
-                ev.append(dict(e="conj", y=y))
-            prev_base = c["base"]
-        # the array after this site: the snapshot taken at the first call of the next site of the
-        # same sweep, else the base tensor as it is now (the sweep has finished)
-        nxt = sites[j + 1]["first"] if j + 1 < len(sites) and sites[j + 1]["first"]["base"] is c["base"] else None
-        after = nxt["snap"] if nxt is not None else c["base"].detach().clone()
-        b = letter_of(c["m"], dictionary)
-        f_done += fac.get(b, 0)
-        scale = sqrt2pow(f_done + (nf_total if sweep_no == 2 else 0))
-        y, err = to_gauss(after, scale)
+    letters = list(letters)
+    if kind == "psi":
+        ev, f_done = [], 0
+        for s in range(n - 1, -1, -1):                  # library site s (0-based), last first
+            part = ["Z"] * s + letters[s:]
+            f_done += fac.get(letters[s], 0)
+            y, err = to_gauss(rotate(part), sqrt2pow(f_done))
+            if err > INT_TOL:
+                return None, dict(why="non-integer result for a Z-prefixed suffix of the basis", basis="".join(part), err=err)
+            ev.append(dict(e="site", s=s, b=letters[s], y=y))
+        return [dict(basis=letters, kind=kind, fam=fam, mode="sites", x=x, ev=ev, fin=ev[-1]["y"])], None
+    out = []
+    for s in range(n - 1, -1, -1):
+        part = ["Z"] * s + letters[s:]
+        nf = sum(fac.get(b, 0) for b in part)
+        fin, err = to_gauss(rotate(part), sqrt2pow(2 * nf))
         if err > INT_TOL:
-            return None, dict(why="non-integer intermediate", site=j, err=err)
-        r = c["r"]
-        if r is None:       # a slice of length one cannot happen for 2x2 blocks
-            return None, dict(why="slice of length %d" % c["len"], site=j)
-        s_lib = n - 1 - int(round(math.log2(r))) if r > 0 else -1
-        ev.append(dict(e="site", s=s_lib, r=int(r), b=b, calls=st["count"], y=y))
-    scale = sqrt2pow(nf_total * (2 if kind == "rho" else 1))
-    fin, err = to_gauss(out, scale)
-    if err > INT_TOL:
-        return None, dict(why="non-integer result", err=err)
-    return dict(basis=list(letters), kind=kind, fam=fam, x=x, ev=ev, fin=fin), None
+            return None, dict(why="non-integer rotate_rho result", basis="".join(part), err=err)
+        out.append(dict(basis=part, kind=kind, fam=fam, mode="result", x=x, ev=[], fin=fin))
+    return out, None
 
 
 def malformed(tr):
@@ -125,7 +62,7 @@ def malformed(tr):
     for j, e in enumerate(tr["ev"]):
         if e["e"] not in ("site", "conj") or not shape_ok(e["y"]):
             return j
-        if e["e"] == "site" and not all(isinstance(e[k], int) for k in ("s", "r", "calls")):
+        if e["e"] == "site" and not isinstance(e["s"], int):
             return j
     if not shape_ok(tr["fin"]):
         return len(tr["ev"])
